@@ -6,6 +6,8 @@
      rx{rr,path,out}                         Go regexp applied to a path (keeps the spec's regex meaning honest)
      hdr{c,rc,n,up,status,down}              in-process MOSN: request-side case c, response-side case rc
      path{c,n,path,query,host,orig,status}   what the upstream received for a rewrite case
+     pfc{c,n,route,vhost}                    what a stream filter read through the matched route (per_filter_config)
+     (hdr / path events carry proto = "h1" | "h2": the listener and cluster variant the case went through)
      redir{c,n,status,loc}   direct{c,n,status,body}     the local reply; n = number of upstream arrivals
      tmo{c,g,t,via}                          effective timeouts (via = "component" | "e2e") *)
 EXTENDS RouteAction, VTrace
@@ -20,15 +22,15 @@ TRx == /\ IsEvent("rx")
 
 THdr == /\ IsEvent("hdr")
         /\ Expect(Ev.n = 1, "not-forwarded-exactly-once")
-        /\ Expect(Ev.n # 1 \/ SameHdr(Ev.up, SemHdr(Ev.c.lv, Ev.c.hin)), "request-headers")
+        /\ Expect(Ev.n # 1 \/ SameHdr(Ev.up, SemHdr(Ev.c.lv, Ev.c.hin, [src |-> Ev.c.src, rsrc |-> Absent])), "request-headers")
         /\ Expect(Ev.status = 200, "reply-status")
-        /\ Expect(Ev.status # 200 \/ SameHdr(Ev.down, SemHdr(Ev.rc.lv, Ev.rc.hin)), "response-headers")
+        /\ Expect(Ev.status # 200 \/ SameHdr(Ev.down, SemHdr(Ev.rc.lv, Ev.rc.hin, [src |-> Ev.c.src, rsrc |-> Ev.rc.rsrc])), "response-headers")
 
 TPath == /\ IsEvent("path")
          /\ Expect(Ev.n = 1, "not-forwarded-exactly-once")
          /\ Expect(Ev.n # 1 \/ Ev.path = SemPath(Ev.c), "path-rewrite")
          /\ Expect(Ev.n # 1 \/ Ev.query = Ev.c.query, "query-kept")
-         /\ Expect(Ev.n # 1 \/ Ev.host = SemHost(Ev.c), "host-rewrite")
+         /\ Expect(Ev.n # 1 \/ Ev.proto # "h1" \/ Ev.host = SemHost(Ev.c), "host-rewrite")     \* promised towards HTTP/1.1 upstreams
          /\ Expect(Ev.n # 1 \/ Ev.orig = SemOrig(Ev.c), "original-path-header")
          /\ Expect(Ev.status = 200, "reply-status")
 
@@ -42,10 +44,15 @@ TDirect == /\ IsEvent("direct")
            /\ Expect(Ev.status = Ev.c.status, "direct-response-status")
            /\ Expect(Ev.body = Ev.c.body, "direct-response-body")
 
+TPfc == /\ IsEvent("pfc")
+        /\ Expect(Ev.n = 1, "not-forwarded-exactly-once")
+        /\ Expect(Ev.n # 1 \/ Ev.route = SemPfc(Ev.c).route, "per-filter-config-of-route")
+        /\ Expect(Ev.n # 1 \/ Ev.vhost = SemPfc(Ev.c).vhost, "per-filter-config-of-virtual-host")
+
 TTmo == /\ IsEvent("tmo")
         /\ Expect(Ev.g = SemTimeout(Ev.c).g, "timeout-global")
         /\ Expect(Ev.t = SemTimeout(Ev.c).t, "timeout-per-try")
 
-TraceNext == (TRx \/ THdr \/ TPath \/ TRedir \/ TDirect \/ TTmo) /\ UNCHANGED c
+TraceNext == (TRx \/ THdr \/ TPfc \/ TPath \/ TRedir \/ TDirect \/ TTmo) /\ UNCHANGED c
 TraceSpec == TraceInit /\ [][TraceNext]_tvars
 ====
